@@ -305,9 +305,16 @@ def gen_programs(tier):
         for n in names:
             for what in ("decl", "use"):
                 items = _fill(SKELETON, pt, (what, n))
-                src = "int g;\nexport function f(int p) -> int { " + _render_items(items) + " return a; }"
+                fn = "export function f(int p) -> int { " + _render_items(items) + " return a; }"
                 expect = _legal_items(items, [{"g"}, {"p"}])
-                progs.append((src, expect, f"{what} {n} at P{pt}"))
+                progs.append(("int g;\n" + fn, expect, f"{what} {n} at P{pt}"))
+                # the globals of a module are visible in all of its functions wherever they stand in the file: the same program with the
+                # global below the function, and between two functions that use the same local names
+                progs.append((fn + "\nint g;", expect, f"{what} {n} at P{pt}, global declared below the function"))
+                if (pt + len(n)) % 3 == 0:
+                    other = "export function h(int p) -> int { int a = p; { int b = a; p = b; } return p; }"
+                    progs.append((other + "\nint g;\n" + fn, expect, f"{what} {n} at P{pt}, global between two functions"))
+                    progs.append((fn + "\nint g;\n" + other, expect, f"{what} {n} at P{pt}, global between two functions, function first"))
     progs.append(("export function f(int p) -> int { { int x = 1; } { int x = 2; } return p; }", True, "sibling blocks"))
     progs.append(("export function f(int p) -> int { if (p > 0) { int x = 1; } else { int x = 2; } return p; }", True, "if/else blocks"))
     progs.append(("export function f(int p) -> int { if (p > 0) int x = 1; else int x = 2; return p; }", True, "if/else unbraced declarations"))
